@@ -15,8 +15,8 @@
   * Non-ASCII case mapping is a parameter `CaseMap`; the algebraic facts the theorems need are the
     fields of `CaseMap.Lawful`, checked exhaustively against Go's `unicode.ToUpper/ToLower` by the
     harness (all 1 114 112 code points).
-  * Go `int` is `Int` here; the one place where 64-bit wrap-around is observable (`start + length` in
-    filterSlice) is modelled explicitly (`wrap64`).
+  * Go `int` is `Int` here; the one place where 64-bit wrap-around can happen (`start + length` in
+    filterSlice) is modelled explicitly (`wrap64`), together with the guard the code has for it.
   * float64 values are decimals `±m / 10^k` (`Scalar.dec`).  Outside the stated grid the model answers
     `.unsupported`.
 -/
@@ -273,7 +273,7 @@ inductive Val
 inductive Res
   | ok (v : Val)
   | err            -- the filter returned an error
-  | panic          -- the Go code panics
+  | panic          -- the Go code panics (no filter of the model does since 27a7ba4; kept for the protocol)
   | unsupported    -- outside the modelled domain
   deriving DecidableEq, Repr, Inhabited
 
@@ -346,7 +346,7 @@ def atoi (s : Bytes) : Option Int :=
 
 /-- extension.go `toInt`; `none` = error -/
 def toIntArg : Val → Except Res Int
-  | .sc (.int i) => pure i
+  | .sc (.int i) => if inInt64 i then pure i else throw .unsupported   -- a Go int is a 64-bit value
   | .sc (.dec neg m k) =>
     let q : Int := (m / 10 ^ k : Nat)
     let v := if neg then -q else q
@@ -410,16 +410,23 @@ def goSlice (xs : List α) (start : Int) (len : Option Int) : List α :=
   let s1 := normStart n start
   if s1 ≥ n then [] else (xs.drop s1.toNat).take (endIdx n s1 len - s1).toNat
 
-/-- the one 64-bit effect: `end = start + length` wraps to a negative number when the sum reaches
-    2^63, the clamp `end > count` does not fire, and `v[start:end]` panics -/
-def overflows (n start : Int) (len : Option Int) : Bool :=
-  match len with
-  | some l => decide (l ≥ 0 ∧ normStart n start < n ∧ normStart n start + l ≥ 2 ^ 63)
-  | none => false
+/-- two's-complement wrap of a 64-bit addition -/
+def wrap64 (x : Int) : Int := (x + 2 ^ 63) % 2 ^ 64 - 2 ^ 63
 
-/-- filterSlice as it runs: `none` = panic -/
-def goSlice64 (xs : List α) (start : Int) (len : Option Int) : Option (List α) :=
-  if overflows xs.length start len then none else some (goSlice xs start len)
+/-- the end index as the code computes it with 64-bit ints: `end = start + length` may wrap to a
+    negative number; `if end > count || end < start { end = count }` catches both the ordinary clamp and
+    the wrap -/
+def endIdx64 (n s1 : Int) : Option Int → Int
+  | none => n
+  | some l =>
+    if l ≥ 0 then (let e := wrap64 (s1 + l); if e > n || e < s1 then n else e)
+    else (if n + l < s1 then s1 else n + l)
+
+/-- filterSlice as it runs (64-bit ints) -/
+def goSlice64 (xs : List α) (start : Int) (len : Option Int) : List α :=
+  let n : Int := xs.length
+  let s1 := normStart n start
+  if s1 ≥ n then [] else (xs.drop s1.toNat).take (endIdx64 n s1 len - s1).toNat
 
 /-- Twig's index rules (PHP array_slice / mb_substr), written independently with drop/take -/
 def specOff (n start : Int) : Nat := if start ≥ 0 then start.toNat else (n + start).toNat
@@ -537,13 +544,9 @@ def sliceV (v : Val) (args : List Val) : Res :=
       | .ok len =>
         match v with
         | .sc (.str s) =>
-          match Slice.goSlice64 (decodeRunes s) start len with
-          | none => .panic
-          | some rs => .ok (.sc (.str (encodeRunes rs)))
+          .ok (.sc (.str (encodeRunes (Slice.goSlice64 (decodeRunes s) start len))))
         | .list ty _ xs =>
-          match Slice.goSlice64 xs start len with
-          | none => .panic
-          | some ys => .ok (.list ty false ys)
+          .ok (.list ty false (Slice.goSlice64 xs start len))
         | _ => .err
 
 /-- extension.go `join` after filterJoin's conversions -/
@@ -650,13 +653,15 @@ def keysV : Val → Res
 /-! ## Numbers
 
   A float64 argument is the double nearest to a decimal `x = ±m/10^k` (`exactFloat`).  The SPEC of
-  `round` and `number_format` is exact decimal arithmetic with ties away from zero (`specRoundDiv`).
-  What Go computes is modelled by `goRoundN` / `goFixedN`:
-  * away from ties the binary evaluation cannot cross a rounding boundary (relative error 2^-52 against a
-    distance of at least 1/m), so the model takes the exact value there — this step is an assumption
-    about IEEE arithmetic that the correspondence run checks (and the driver also evaluates the full
-    binary pipeline `pipeRound` / `pipeFixed` so that the harness can compare all three);
-  * AT a decimal tie the outcome depends on which side of the tie the double lies, which `fl53` computes.
+  `round` and `number_format` is exact decimal arithmetic (`specRoundDiv`: ties away from zero).
+  * `round` (precision ≥ 0) works on the SHORTEST DECIMAL REPRESENTATION of the input
+    (`roundDecimal` in extension.go): pure digit-string arithmetic, modelled digit by digit
+    (`roundCore`) and proved equal to the spec (TwigProofs/C19.lean).
+  * `number_format` is still `fmt.Sprintf("%.nf")` on the binary value: away from ties the binary
+    evaluation cannot cross a rounding boundary (relative error 2^-52 against a distance of at least
+    1/m), so the model takes the exact value there — an assumption about IEEE arithmetic that the
+    correspondence run checks (the driver also evaluates the full binary pipeline `pipeFixed`); AT a
+    decimal tie the outcome depends on which side of the tie the double lies, which `fl53` computes.
 -/
 namespace Num
 
@@ -719,24 +724,72 @@ def goFixedN (m k d : Nat) : Nat :=
       | .eq => let q := m / dv; if q % 2 = 1 then q + 1 else q     -- a real binary tie: half to even
     else specRoundDiv m dv
 
-/-- `math.Round(x * 10^p)` on doubles (the full pipeline): round the decimal to a double, multiply by
-    `10^p` with one rounding, round half away from zero -/
-def pipeRound (m k p : Nat) : Nat :=
-  if m = 0 then 0 else
-  let (mx, ex) := fl53 m (10 ^ k)
-  let (xn, xd) := binFrac mx ex
-  let (my, ey) := fl53 (xn * 10 ^ p) xd
-  let (yn, yd) := binFrac my ey
-  specRoundDiv yn yd
+/-! ### round: digit-string arithmetic (`roundDecimal`) -/
 
-/-- `math.Round(x * 10^p)` for `|x| = m/10^k` (hybrid): exact except at a tie that binary
-    arithmetic cannot see exactly -/
-def goRoundN (m k p : Nat) : Nat :=
-  if k ≤ p then m * 10 ^ (p - k)
+/-- value of a digit string, most significant digit first (digits as numbers 0–9) -/
+def valOf (ds : List Nat) : Nat := ds.foldl (fun a d => a * 10 + d) 0
+
+/-- digits of `n`, most significant first (fuel = an upper bound of their number) -/
+def digitsAuxN : Nat → Nat → List Nat → List Nat
+  | 0, _, acc => acc
+  | f + 1, n, acc => if n < 10 then n :: acc else digitsAuxN f (n / 10) (n % 10 :: acc)
+def digitsN (n : Nat) : List Nat := digitsAuxN (n + 1) n []
+
+/-- the digits of `strconv.FormatFloat(|v|, 'f', -1, 64)` without the point, for `|v| = m/10^k` in
+    lowest terms (`stripZeros`): at least one digit before the point -/
+def floatDigits (m k : Nat) : List Nat :=
+  let ds := digitsN m
+  List.replicate (k + 1 - ds.length) 0 ++ ds
+
+/-- `digits[i]++` with carry from the right end: the digits and the carry out -/
+def incrAux : List Nat → List Nat × Bool
+  | [] => ([], true)
+  | d :: ds =>
+    let (ds', c) := incrAux ds
+    if c then (if d = 9 then (0 :: ds', true) else ((d + 1) :: ds', false)) else (d :: ds', false)
+
+/-- rounding mode of roundDecimal: 'c' half away from zero, 'u' towards +Inf, 'd' towards -Inf -/
+inductive Mode
+  | common | up | down
+  deriving DecidableEq, Repr
+
+/-- does the kept part go up?  'c': first dropped digit ≥ 5; 'u'/'d': a non-zero dropped digit and the
+    sign that makes "up in magnitude" the right direction -/
+def roundsUp (mode : Mode) (neg : Bool) (dropped : List Nat) : Bool :=
+  match mode with
+  | .common => match dropped with
+    | d :: _ => decide (5 ≤ d)
+    | [] => false
+  | .up => !neg && dropped.any (· != 0)
+  | .down => neg && dropped.any (· != 0)
+
+/-- the digit work of `roundDecimal`: `digits` with `point` digits before the decimal point become
+    digits with exactly `decimals` fraction digits; returns the new digits -/
+def roundCore (digits : List Nat) (point decimals : Nat) (neg : Bool) (mode : Mode) : List Nat :=
+  let keep := point + decimals
+  if digits.length ≤ keep then digits ++ List.replicate (keep - digits.length) 0
   else
-    let dv := 10 ^ (k - p)
-    if isTie m dv && p != 0 && flCmp m k != .eq then pipeRound m k p
-    else specRoundDiv m dv
+    let kept := digits.take keep
+    if roundsUp mode neg (digits.drop keep) then
+      let (ds', c) := incrAux kept
+      if c then 1 :: ds' else ds'
+    else kept
+
+/-- `ParseFloat(roundDecimal(v, p, mode))` for `|v| = m/10^k`, as the integer `N` with value `N/10^p` -/
+def goRoundModeN (mode : Mode) (neg : Bool) (m k p : Nat) : Nat :=
+  let (m', k') := stripZeros m k
+  let ds := floatDigits m' k'
+  valOf (roundCore ds (ds.length - k') p neg mode)
+
+/-- method "common" -/
+def goRoundN (m k p : Nat) : Nat := goRoundModeN .common false m k p
+
+/-- SPEC of the three modes on magnitudes: `m/d` rounded -/
+def specModeDiv (mode : Mode) (neg : Bool) (m d : Nat) : Nat :=
+  match mode with
+  | .common => specRoundDiv m d
+  | .up => m / d + (if !neg && m % d != 0 then 1 else 0)
+  | .down => m / d + (if neg && m % d != 0 then 1 else 0)
 
 /-! ### thousands separators -/
 
@@ -808,7 +861,19 @@ def optIntArg (args : List Val) : Except Res Int :=
     | .error .err => pure 0
     | .error e => throw e
 
-/-- filterRound, method "common" -/
+/-- the method argument of filterRound: `strings.ToLower`, "ceil"/"ceiling", "floor", anything else
+    is "common" (ASCII method names; others `.unsupported`) -/
+def roundMode (args : List Val) : Option Num.Mode :=
+  match args with
+  | _ :: .sc (.str meth) :: _ =>
+    if !meth.all (· < 128) then none else
+    let l := asciiLower meth
+    if l == [99, 101, 105, 108] || l == [99, 101, 105, 108, 105, 110, 103] then some .up       -- ceil, ceiling
+    else if l == [102, 108, 111, 111, 114] then some .down                                   -- floor
+    else some .common
+  | _ => some .common
+
+/-- filterRound for precision ≥ 0 (the decimal path) -/
 def roundV (v : Val) (args : List Val) : Res :=
   match toFloatArg v with
   | .error .err => .ok v
@@ -817,14 +882,16 @@ def roundV (v : Val) (args : List Val) : Res :=
     match optIntArg args with
     | .error e => e
     | .ok p =>
-      let methodOk := match args with
-        | _ :: .sc (.str meth) :: _ => !(([[99, 101, 105, 108], [99, 101, 105, 108, 105, 110, 103], [102, 108, 111, 111, 114]] : List Bytes).contains (asciiLower meth)) && meth.all (· < 128)
-        | _ => true
-      if p < 0 || p > 15 || !exactFloat m k || !methodOk then .unsupported else
-      let n := Num.goRoundN m k p.toNat
-      if n ≥ 10 ^ 15 && p != 0 then .unsupported else     -- x·10^p no longer exact in a double
-      if p == 0 then .ok (.sc (.int (if neg then -(n : Int) else n)))   -- int(result); int(-0.0) = 0
-      else .ok (.sc (.dec neg n p.toNat))
+      match roundMode args with
+      | none => .unsupported
+      | some mode =>
+      if p < 0 || p > 400 || !exactFloat m k then .unsupported else   -- p < 0: the old float path
+      let n := Num.goRoundModeN mode (neg && m != 0) m k p.toNat
+      let (n', p') := stripZeros n p.toNat
+      if !exactFloat n' p' then .unsupported else     -- the parsed result must print as itself
+      let neg' := neg && n != 0                        -- never "-0"
+      if p == 0 then .ok (.sc (.int (if neg' then -(n : Int) else n)))   -- int(result)
+      else .ok (.sc (.dec neg' n p.toNat))
 
 /-- filterNumberFormat -/
 def numberFormatV (v : Val) (args : List Val) : Res :=
@@ -847,7 +914,8 @@ def numberFormatV (v : Val) (args : List Val) : Res :=
       if n ≥ 10 ^ 15 && !(k == 0) then .unsupported else   -- more digits than a double carries
       let (ip, fp) := fixedParts n d
       let ipG := if sep.isEmpty then ip else Num.goGroup sep ip
-      .ok (.sc (.str ((if neg then [45] else []) ++ ipG ++ (if d > 0 then decPoint ++ fp else []))))
+      -- a result whose digits are all zero loses its sign
+      .ok (.sc (.str ((if neg && n != 0 then [45] else []) ++ ipG ++ (if d > 0 then decPoint ++ fp else []))))
 
 /-! ## Dispatch -/
 
@@ -889,42 +957,26 @@ def applyFilter (cm : CaseMap) (name : String) (v : Val) (args : List Val) : Res
 /-! ## Recorded findings as decidable predicates (used to classify a failing input) -/
 
 /-- the class of recorded finding an input falls in, if any.
-    * `slice-length-overflow`: `start + length ≥ 2^63` — the Go code panics (C19_slice_counterexample)
-    * `decimal-tie`: `round` with precision ≥ 1 / `number_format` on a decimal exactly half-way between two
-      results — Go's answer depends on the binary expansion (C19_round_counterexample, C19_number_format_counterexample)
-    * `negative-zero`: number_format of a negative input that rounds to zero prints `-0`
-    * `split-multichar` / `join-empty-list`: the round trip exceptions (C19_split_join_counterexample_*) -/
+    * `number-format-decimal-tie`: number_format on a decimal exactly half-way between two results — `%.nf`
+      rounds the binary value (C19_number_format_counterexample)
+    * `split-multichar-separator` / `split-of-empty-join`: the round trip exceptions
+      (C19_split_join_counterexample_*) -/
 def knownClass (name : String) (v : Val) (args : List Val) : Option String :=
   match name with
-  | "slice" =>
-    match args with
-    | a0 :: rest =>
-      match toIntArg a0, (match rest with | a1 :: _ => (toIntArg a1).toOption | [] => none) with
-      | .ok start, some l =>
-        let n : Nat := match v with
-          | .sc (.str s) => runeCount s
-          | .list _ _ xs => xs.length
-          | _ => 0
-        if Slice.overflows n start (some l) then some "slice-length-overflow" else none
-      | _, _ => none
-    | [] => none
-  | "round" | "number_format" =>
+  | "number_format" =>
     match toFloatArg v, optIntArg args with
-    | .ok (neg, m, k), .ok p =>
+    | .ok (_, m, k), .ok p =>
       if p < 0 then none else
       let p := p.toNat
-      if k > p && Num.isTie m (10 ^ (k - p)) && (name == "number_format" || p != 0) then some "decimal-tie"
-      else if neg && (if k ≤ p then m == 0 else Num.specRoundDiv m (10 ^ (k - p)) == 0) && name == "number_format"
-        then some "negative-zero"
-      else none
+      if k > p && Num.isTie m (10 ^ (k - p)) then some "number-format-decimal-tie" else none
     | _, _ => none
   | "split" =>
     match sepArg args with
-    | _ :: _ :: _ => some "split-multichar"
+    | _ :: _ :: _ => some "split-multichar-separator"
     | _ => none
   | "join" =>
     match v with
-    | .list _ _ [] => some "join-empty-list"
+    | .list _ _ [] => some "split-of-empty-join"
     | _ => none
   | _ => none
 
